@@ -119,6 +119,16 @@ WRAP:
 			t = time.Date(t.Year(), t.Month(), 1, 0, 0, 0, 0, loc)
 		}
 		t = t.AddDate(0, 1, 0)
+		// Notice if the hour is no longer midnight due to DST: when midnight
+		// of the 1st does not exist, AddDate lands on 23:00 of the last day of
+		// the previous month. Add an hour if it's 23, subtract an hour if it's 1.
+		if t.Hour() != 0 {
+			if t.Hour() > 12 {
+				t = t.Add(time.Duration(24-t.Hour()) * time.Hour)
+			} else {
+				t = t.Add(time.Duration(-t.Hour()) * time.Hour)
+			}
+		}
 
 		// Wrapped around.
 		if t.Month() == time.January {
